@@ -259,3 +259,80 @@ pub fn add_xml_only_decl(a: &mut crate::adoc::ANode, rng: &mut crate::rng::Rng) 
     });
     true
 }
+
+/// An `io::Write` that takes at most `limit` bytes per call, as pipes, sockets and rate-limited writers do: whoever
+/// writes to it has to look at the count `write` returns (or use `write_all`)
+pub struct ChunkWriter {
+    pub buf: Vec<u8>,
+    pub limit: usize,
+    pub calls: u64,
+}
+
+impl ChunkWriter {
+    pub fn new(limit: usize) -> Self {
+        ChunkWriter { buf: Vec::new(), limit: limit.max(1), calls: 0 }
+    }
+}
+
+impl std::io::Write for ChunkWriter {
+    fn write(&mut self, data: &[u8]) -> std::io::Result<usize> {
+        self.calls += 1;
+        let n = data.len().min(self.limit);
+        self.buf.extend_from_slice(&data[..n]);
+        Ok(n)
+    }
+    fn flush(&mut self) -> std::io::Result<()> {
+        Ok(())
+    }
+}
+
+/// Bind the XML namespace a second time: another prefix (`zx`) declared on a random element with an attribute of the
+/// XML namespace on it or below it, or - on an element without element children - the XML namespace as the default
+/// namespace with the element itself in it. Only `xmlns:xml` may be left out of the output; these may not.
+pub fn add_xml_alias(a: &mut crate::adoc::ANode, rng: &mut crate::rng::Rng) -> bool {
+    use crate::adoc::*;
+    let mut n = 0;
+    a.walk(&mut |x| {
+        if x.kind == AKind::Elem {
+            n += 1;
+        }
+    });
+    if n == 0 {
+        return false;
+    }
+    let target = rng.below(n);
+    let as_default = rng.chance(1, 3);
+    let below = rng.bool();
+    let mut seen = 0;
+    let mut done = false;
+    a.walk_mut(&mut |x| {
+        if x.kind != AKind::Elem {
+            return;
+        }
+        if seen == target {
+            let leafish = !x.children.iter().any(|c| c.kind == AKind::Elem);
+            if as_default && leafish && !x.decls.iter().any(|(p, _)| p.is_empty()) {
+                x.decls.push((String::new(), XML_NS.to_string()));
+                x.name = QName { ns: XML_NS.to_string(), local: x.name.local.clone() };
+                done = true;
+            } else if !x.decls.iter().any(|(p, _)| p == "zx") {
+                x.decls.push(("zx".to_string(), XML_NS.to_string()));
+                let lang = QName { ns: XML_NS.to_string(), local: "lang".to_string() };
+                let holder: &mut ANode = if below {
+                    match x.children.iter().position(|c| c.kind == AKind::Elem) {
+                        Some(i) => &mut x.children[i],
+                        None => x,
+                    }
+                } else {
+                    x
+                };
+                if !holder.attrs.iter().any(|(q, _)| *q == lang) {
+                    holder.attrs.push((lang, "en".to_string()));
+                }
+                done = true;
+            }
+        }
+        seen += 1;
+    });
+    done
+}
